@@ -243,6 +243,10 @@ func (a *AttributeExpr) Validate(ctx string, parent eval.Expression) *eval.Valid
 		}
 	}
 
+	if rt, ok := a.Type.(*ResultTypeExpr); ok {
+		verr.Merge(rt.validateNestedViews(parent))
+	}
+
 	if view, ok := a.Meta.Last(ViewMetaKey); ok {
 		rt, ok := a.Type.(*ResultTypeExpr)
 		if !ok {
